@@ -434,4 +434,115 @@ def lcCheck (a b : BMat) (validate : Bool) : Except Err (Bool × List (String ×
       | .ok t => if isGraphState t b.f then .ok (true, gates) else .error .warning
     else .ok (true, gates)
 
+/-! ## the repaired `is_lc_equivalent` (repair of D14): the linear system is solved component by component
+
+  After the repair, `isLcEquivalent` above is the model of `_is_lc_equivalent_component` (the unchanged old body) and
+  `isLcEquivalentR` is the model of `is_lc_equivalent`. -/
+
+/-- the inner loop of `_connected_components`:
+    `for other in range(n_nodes): if adj_matrix[node, other] and other not in component: component.append(other)` -/
+def bfsVisit (n : Nat) (A : Adj) (node : Nat) (comp : List Nat) : List Nat :=
+  (List.range n).foldl (fun c other => if A node other && !c.contains other then c ++ [other] else c) comp
+
+/-- `for node in component:` over the list that grows while it is traversed; `idx` is the position of the iterator.
+    `fuel = n` always suffices (the list never holds a vertex twice, `bfsLoop_fuel`) -/
+def bfsLoop (n : Nat) (A : Adj) : Nat → Nat → List Nat → List Nat
+  | 0, _, comp => comp
+  | fuel + 1, idx, comp =>
+    if idx < comp.length then bfsLoop n A fuel (idx + 1) (bfsVisit n A (comp.getD idx 0) comp) else comp
+
+/-- `sorted(component)` for the breadth-first list of `start` (a duplicate-free list of vertices `< n`, so sorting it is
+    listing the vertices of `range(n)` that occur in it) -/
+def componentOf (n : Nat) (A : Adj) (start : Nat) : List Nat :=
+  let comp := bfsLoop n A n 0 [start]
+  (List.range n).filter fun v => comp.contains v
+
+/-- `_connected_components(adj_matrix)`: sorted vertex lists, ordered by their smallest vertex -/
+def connectedComponents (n : Nat) (A : Adj) : List (List Nat) :=
+  (List.range n).foldl (fun comps start =>
+    if comps.any (fun c => c.contains start) then comps else comps ++ [componentOf n A start]) []
+
+/-- `adj_matrix[np.ix_(nodes, nodes)]` -/
+def subMat (a : BMat) (nodes : List Nat) : BMat :=
+  { r := nodes.length, c := nodes.length, f := fun i j => a.f (nodes.getD i 0) (nodes.getD j 0) }
+
+/-- `solution[nodes] = component_solution` on the flat vector (`4 v + t` ↦ entry `t` of the block of vertex `v`) -/
+def scatter (sol : List Bool) (nodes : List Nat) (q : List Bool) : List Bool :=
+  (List.range sol.length).map fun idx =>
+    match nodes.findIdx? (· == idx / 4) with
+    | some i => vget q (4 * i + idx % 4)
+    | none => vget sol idx
+
+/-- what the repaired `is_lc_equivalent` returns: the solution, the components, and the result of
+    `_is_lc_equivalent_component` on every component that was examined (in order; the last one is the failing one after a
+    `no`).  `path` is `"components-differ"` or `"per-component"`. -/
+structure EqOutR where
+  sol : Option (List Bool)
+  comps : List (List Nat)
+  parts : List EqOut
+  path : String
+
+/-- the loop `for nodes in components:` of the repaired `is_lc_equivalent`.  `draws`: one list of `np.random.randint(2)`
+    values per call of `_random_checker` (each call re-seeds the generator) -/
+def componentLoop (a b : BMat) (mode : Mode) :
+    List (List Nat) → List (List Bool) → List Bool → List EqOut → Except Err (Option (List Bool) × List EqOut)
+  | [], _, sol, parts => .ok (some sol, parts)
+  | nodes :: rest, draws, sol, parts =>
+    match isLcEquivalent (subMat a nodes) (subMat b nodes) mode (draws.headD []) with
+    | .error e => .error e
+    | .ok out =>
+      match out.sol with
+      | none => .ok (none, parts ++ [out])
+      | some q =>
+        componentLoop a b mode rest (if out.path = "random" then draws.tail else draws) (scatter sol nodes q) (parts ++ [out])
+
+/-- the repaired `is_lc_equivalent(adj1, adj2, mode, seed)` -/
+def isLcEquivalentR (a b : BMat) (mode : Mode) (draws : List (List Bool)) : Except Err EqOutR :=
+  let n := a.r
+  if n ≠ b.r then .error .assertion
+  else
+    let comps := connectedComponents n a.f
+    if comps ≠ connectedComponents n b.f then .ok { sol := none, comps := comps, parts := [], path := "components-differ" }
+    else
+      match componentLoop a b mode comps draws (List.replicate (4 * n) false) [] with
+      | .error e => .error e
+      | .ok (sol, parts) => .ok { sol := sol, comps := comps, parts := parts, path := "per-component" }
+
+/-- `find_lc_operations` over the repaired `is_lc_equivalent` -/
+def findLcOperationsR (fuel : Nat) (a b : BMat) (mode : Mode) (draws : List (List Bool)) : Except Err (List Nat) :=
+  match isLcEquivalentR a b mode draws with
+  | .error e => .error e
+  | .ok out =>
+    match out.sol with
+    | some s => lcGraphOperations fuel a.r a.f s
+    | none => .error .value
+
+/-- `converter_gate_list` over the repaired `is_lc_equivalent` -/
+def converterGateListR (a b : BMat) : Except Err (List (String × Nat) × Bool) :=
+  match isLcEquivalentR a b .det [] with
+  | .error e => .error e
+  | .ok out =>
+    match out.sol with
+    | none => .error .assertion
+    | some s =>
+      let names := localCliffordOps a.r s
+      let gates : List (String × Nat) := (names.zipIdx).flatMap fun (ops, i) => ops.reverse.map fun o => (o, i)
+      match runGates (graphTab a.r a.f) gates with
+      | .error e => .error e
+      | .ok t =>
+        match phaseCorrection t b.f with
+        | some zs => .ok (gates ++ zs, true)
+        | none => .ok (gates, false)
+
+/-- `lc_check` over the repaired `is_lc_equivalent` -/
+def lcCheckR (a b : BMat) (validate : Bool) : Except Err (Bool × List (String × Nat)) :=
+  match converterGateListR a b with
+  | .error _ => .ok (false, [])
+  | .ok (gates, _) =>
+    if validate then
+      match runGates (graphTab a.r a.f) gates with
+      | .error e => .error e
+      | .ok t => if isGraphState t b.f then .ok (true, gates) else .error .warning
+    else .ok (true, gates)
+
 end Graphiq.LC
